@@ -247,6 +247,8 @@ def run_fov(ck, F):
 
 def run(ck, tier):
     F = factsmod.Facts("ws")
+    from . import influence as _infl
+    _infl.run(ck, F, 'C12')
     run_native(ck, F)
     run_wrapping(ck, F)
     run_fov(ck, F)
